@@ -70,6 +70,14 @@ func stepOp(w *world, step int) {
 	createdBefore := len(w.store.created)
 	chartV := ndChoice("chart", 2)
 	withHook := ndBool("hook")
+	// bound "slimflags"=1 (deep histories): from the second operation on, the boolean options
+	// stay off and only the operation, the chart and the numeric options vary
+	flag := func(name string) bool {
+		if vBound("slimflags", 0) == 1 && step > 0 {
+			return false
+		}
+		return ndBool(name)
+	}
 	var err error
 	var crashed bool
 	var flags, kind string
@@ -82,14 +90,14 @@ func stepOp(w *world, step int) {
 		kind = "install"
 		inst := NewInstall(w.config())
 		inst.ReleaseName, inst.Namespace = relName, "default"
-		inst.Replace, inst.Atomic, inst.DisableHooks = ndBool("replace"), ndBool("atomic"), ndBool("nohooks")
+		inst.Replace, inst.Atomic, inst.DisableHooks = flag("replace"), flag("atomic"), flag("nohooks")
 		err, crashed = w.runOp(func() error { _, e := inst.Run(mkChart(chartV, withHook), map[string]interface{}{}); return e })
 		flags = fmt.Sprintf("replace=%v atomic=%v nohooks=%v", inst.Replace, inst.Atomic, inst.DisableHooks)
 	case 1:
 		kind = "upgrade"
 		up := NewUpgrade(w.config())
 		up.Namespace = "default"
-		up.Atomic, up.CleanupOnFail, up.DisableHooks = ndBool("atomic"), ndBool("cleanup"), ndBool("nohooks")
+		up.Atomic, up.CleanupOnFail, up.DisableHooks = flag("atomic"), flag("cleanup"), flag("nohooks")
 		up.MaxHistory = ndIntRange("maxhist", 0, vBound("maxhist", 2))
 		err, crashed = w.runOp(func() error { _, e := up.Run(relName, mkChart(chartV, withHook), map[string]interface{}{}); return e })
 		flags = fmt.Sprintf("atomic=%v cleanup=%v nohooks=%v maxhist=%d", up.Atomic, up.CleanupOnFail, up.DisableHooks, up.MaxHistory)
@@ -97,14 +105,14 @@ func stepOp(w *world, step int) {
 		kind = "rollback"
 		rb := NewRollback(w.config())
 		rb.Version = ndIntRange("version", 0, maxPre+1)
-		rb.CleanupOnFail, rb.DisableHooks = ndBool("cleanup"), ndBool("nohooks")
+		rb.CleanupOnFail, rb.DisableHooks = flag("cleanup"), flag("nohooks")
 		rb.MaxHistory = ndIntRange("maxhist", 0, vBound("maxhist", 2))
 		err, crashed = w.runOp(func() error { return rb.Run(relName) })
 		flags = fmt.Sprintf("version=%d cleanup=%v nohooks=%v maxhist=%d", rb.Version, rb.CleanupOnFail, rb.DisableHooks, rb.MaxHistory)
 	case 3:
 		kind = "uninstall"
 		un := NewUninstall(w.config())
-		un.KeepHistory, un.DisableHooks = ndBool("keephistory"), ndBool("nohooks")
+		un.KeepHistory, un.DisableHooks = ndBool("keephistory"), flag("nohooks")
 		err, crashed = w.runOp(func() error { _, e := un.Run(relName); return e })
 		flags = fmt.Sprintf("keep=%v nohooks=%v", un.KeepHistory, un.DisableHooks)
 	}
